@@ -57,6 +57,28 @@ fn main() {
             let n = cmacro::generate(&props, seed, thorough, &args[5], &args[6]).expect("write");
             println!("{} macro cases", n);
         }
+        "candidates" => {
+            // reads one `prog …` case line, prints strictly smaller variants (one per line)
+            let stdin = std::io::stdin();
+            for line in stdin.lock().lines() {
+                let line = line.unwrap();
+                let line = line.trim();
+                if !line.starts_with("prog ") {
+                    continue;
+                }
+                let toks: Vec<&str> = line.split_whitespace().collect();
+                let flag = toks[4].split(':').next().unwrap_or("-").to_string();
+                let p = prog::Prog::parse(line);
+                for body in prog::shrink_goals(&p.body) {
+                    let q = prog::Prog { body, ..p.clone() };
+                    // keep the observation mode of the original line
+                    let l = q.line();
+                    let mut t: Vec<String> = l.split_whitespace().map(|x| x.to_string()).collect();
+                    t[4] = flag.clone();
+                    println!("{}", t.join(" "));
+                }
+            }
+        }
         "replay" => {
             let prop = args[2].as_str();
             let dir = &args[3];
